@@ -174,6 +174,31 @@ def rule_KC(run: Run) -> RuleResult:
                     bad.add(c)
                     if c not in evaluated_any:
                         evaluated_any.append(c)
+        # (5) what evaluate attempts whatever happens is attempted by keys: a keys path taken on grounds that evaluate does not
+        # look at (a short cut for "the dispatch option is absent") must still ask — or evaluate — every part that every
+        # compatible evaluate path begins with, because the outcome of that attempt is what selects the rest
+        def attempted(path, ops):
+            out_ = set()
+            for e in path.events:
+                if e.kind == "op" and e.op in ops and isinstance(e.target, Child):
+                    out_.add(e.target.path)
+            return out_
+        for k in kpaths:
+            if selfop or any(e.kind == "selfop" for e in k.events):
+                continue
+            comp = [e_ for e_ in epaths if _compatible(e_, k)]
+            if not comp:
+                continue
+            must = None
+            for e_ in comp:
+                a_ = attempted(e_, ("evaluate",))
+                must = a_ if must is None else (must & a_)
+            missing = sorted((must or set()) - attempted(k, ("keys", "evaluate", "validate")) - {"<self>"})
+            for c in missing:
+                if c not in bad:
+                    bad.add(c)
+                    if c not in evaluated_any:
+                        evaluated_any.append(c)
         trivial = not evaluated_any and not keyed_any
         for c in sorted(set(evaluated_any) | bad):
             if c == "<self>":
@@ -272,6 +297,35 @@ def rule_KU(run: Run) -> RuleResult:
                 res.add(f"{cls.qualname}:{op}:a part's key set does not decide which parts are asked", bad is None, f, ln,
                         "every path asks the same parts whatever a part reported" if bad is None else
                         f"{bad} are asked only when the key set of another part is empty (`a.{op}(o) or b.{op}(o)` is not a union)", nec)
+    # the documented side switches (module-level Option constants such as LABREA.EFFECTS.DISABLED) do not decide which parts
+    # keys() asks: the fingerprint of a cached dataset would differ between the two settings of the switch, an entry stored
+    # under one setting is missed under the other, and the body runs again (a different value for a body that is not pure)
+    for cls in run.node_classes():
+        f, ln = _meth_loc(run, cls, "keys")
+        paths = normal(run.paths(cls, "keys"))
+        groups2: Dict[tuple, List] = {}
+        switched = False
+        for p in paths:
+            sig = []
+            for c in p.conds:
+                import re as _re_sw
+                if (c[2] and "Val(evaluate,New(Option;" in c[2] and _constant_switch(c[2])) or (c[2] and "Const('LABREA." in c[2] and "Child(" not in c[2]) \
+                        or _re_sw.match(r"^(not )?_?[A-Z][A-Z0-9_]*\(", c[0] or ""):
+                    # the test of a module-level switch constant (``_EFFECTS_DISABLED(options)``), however it was evaluated
+                    switched = True
+                    continue
+                sig.append((c[2] or c[0], c[1]))
+            groups2.setdefault(tuple(sorted(set(sig))), []).append(p)
+        if not switched:
+            continue
+        bad2 = None
+        for sig, ps in groups2.items():
+            sets_ = {frozenset(op_targets(p, "keys")) for p in ps}
+            if len(sets_) > 1:
+                a_, b_ = sorted(sets_, key=len)[0], sorted(sets_, key=len)[-1]
+                bad2 = sorted(b_ - a_)
+        res.add(f"{cls.qualname}:keys:a side switch does not decide which parts are keyed", bad2 is None, f, ln,
+                "the same parts are keyed under both settings" if bad2 is None else f"{bad2} are keyed under one setting of the switch only: the fingerprint depends on the switch", nec)
     res.count("union_sites", n_union)
     if n_union < 60:
         raise AnalysisError(f"R-KU: only {n_union} union sites seen in keys()/explain() results (anchor vanished)")
